@@ -7,6 +7,8 @@ pub mod flags;
 pub mod language_parsers;
 mod tag_parser;
 pub mod validators;
+#[cfg(feature = "verif_hooks")]
+pub mod verif_hooks;
 
 #[derive(Serialize, Clone, Debug, PartialEq, Eq, PartialOrd, Ord)]
 struct Position {
